@@ -154,7 +154,13 @@ def _init_worker(fn_module: str, fn_name: str, repo: str):
 
 def _run_one(arg):
     try:
-        return _worker_fn(_worker_state, arg)
+        r = _worker_fn(_worker_state, arg)
+        m = _worker_state.get("model") if isinstance(_worker_state, dict) else None
+        if isinstance(r, dict) and m is not None and hasattr(m, "take_small"):
+            x = m.take_small()
+            if x:
+                r["_xcheck"] = x
+        return r
     except Exception as ex:  # noqa: BLE001
         return {"harness_error": f"{type(ex).__name__}: {ex}", "arg": repr(arg)[:200],
                 "tb": traceback.format_exc()[-1500:]}
@@ -231,3 +237,37 @@ def write_evidence(prop: str, tier: str, seed: int, t0: float, comp: dict | None
     tmp = EVIDENCE / f"{prop}.json.tmp"
     tmp.write_text(json.dumps(ev, indent=1, default=str))
     tmp.replace(EVIDENCE / f"{prop}.json")
+
+
+# ------------------------------------------------ vm_compute cross-check
+def vm_crosscheck(prop: str, pairs: list, limit: int) -> dict:
+    """Re-evaluate the smallest model cases inside Coq (`Eval vm_compute in
+    run_line <input>`) and compare with what the extracted driver printed:
+    checks extraction and the OCaml glue.  pairs: [(input line, output line)]."""
+    pairs = sorted(set(pairs), key=lambda p: len(p[0]))[:limit]
+    if not pairs:
+        return {"checked": 0, "mismatches": []}
+    out_dir = VERIF / "build"
+    out_dir.mkdir(exist_ok=True)
+    src = out_dir / f"xcheck_{prop}.v"
+    L = ["From Coq Require Import List NArith.", "From D2P Require Import Str Driver.", "Import ListNotations.",
+         "Open Scope N_scope."]
+    for i, (inp, _) in enumerate(pairs):
+        L.append(f"Definition c{i} : str := [{';'.join(str(ord(ch)) for ch in inp)}].")
+        L.append(f"Eval vm_compute in (run_line c{i}).")
+    src.write_text("\n".join(L) + "\n")
+    p = subprocess.run(["timeout", "600", "coqc", "-Q", str(COQ / "model"), "D2P", "-Q", str(COQ / "gen"), "D2P", str(src)],
+                       capture_output=True, text=True, cwd=out_dir)
+    for ext in (".vo", ".vok", ".vos", ".glob"):
+        (out_dir / f"xcheck_{prop}{ext}").unlink(missing_ok=True)
+    if p.returncode != 0:
+        return {"checked": 0, "mismatches": [f"coqc failed: {p.stderr[-300:]}"]}
+    chunks = re.findall(r"=\s*\[(.*?)\]\s*:\s*str", p.stdout, flags=re.S)
+    mism = []
+    for i, ((inp, out), ch) in enumerate(zip(pairs, chunks)):
+        got = "".join(chr(int(x)) for x in re.findall(r"\d+", ch))
+        if got != out:
+            mism.append({"case": inp[:200], "driver": out[:200], "vm_compute": got[:200]})
+    if len(chunks) != len(pairs):
+        mism.append(f"expected {len(pairs)} results, parsed {len(chunks)}")
+    return {"checked": len(chunks), "mismatches": mism}
